@@ -173,6 +173,7 @@ class Model:
         self.box = list(self.full)
         self.sec = None
         self.props_used_opernum = False
+        self.props_after_opernum = set()   # PROPS arrays touched after the first use of region set OPERNUM in PROPS
 
     # ---- helpers
     def arr(self, name, sec=None):
@@ -182,6 +183,13 @@ class Model:
         a = self.A.get(key)
         if a is None:
             a = self.A[key] = Arr(name, self.n)
+        if self.sec == "PROPS" and self.props_used_opernum:
+            self.props_after_opernum.add(key)
+        if self.sec == "REGIONS" and name == "OPERNUM" and sec is None and self.props_used_opernum:
+            # The library scans REGIONS before PROPS (FieldProps constructor), so region operations
+            # of the PROPS section see OPERNUM as modified later in REGIONS: known defect
+            for k in self.props_after_opernum:
+                self.A[k].taint.add("regions-before-props")
         return a
 
     def has(self, name):
@@ -208,10 +216,6 @@ class Model:
         return REGSETS[setletter]
 
     def region_cells(self, regname, rid):
-        if regname not in self.A:
-            # an int array with a default exists implicitly
-            if ARR[regname]["default"] is None:
-                raise Invalid("region array undefined")
         r = self.arr(regname, "GRID")
         if any(s == 0 for s in r.st):
             raise Invalid("region array not fully defined")
@@ -385,6 +389,10 @@ class Model:
             raise Invalid("source cells without deck value")
         if d_info["glob"] and not s_info["glob"] and not region:
             raise Invalid("storage mismatch")
+        if d_info["glob"] and not region and not s.gexact:
+            # after a region operation the global copy of a global-storage array keeps stale
+            # statuses (update_global_from_local) and the library refuses to read it: not generated
+            raise Invalid("global storage of the source is stale after a region operation")
         if d_info["pos"] and any(s.val[c] is None or s.val[c] <= 0 for c in cs):
             raise Invalid("positive array")
         return s
@@ -466,7 +474,7 @@ class Model:
             raise Invalid("domain")
         raise Invalid("unknown function")
 
-    def _check_operate(self, dst, fn, src, cs):
+    def _check_operate(self, dst, fn, src, cs, region=False):
         self.check_target(dst)
         if src not in ARR or fn not in OPERATE_FUNCS:
             raise Invalid("operate args")
@@ -489,9 +497,7 @@ class Model:
             raise Invalid("non-linear function on dimensioned arrays")
         if d_info["pos"]:
             raise Invalid("positive array")
-        if src not in self.A:
-            raise Invalid("source missing")
-        s = self.A[src]
+        s = self.arr(src, s_info["sec"])
         if any(s.st[c] == 0 or s.val[c] is None for c in cs):
             raise Invalid("source undefined/unknown")
         d = self.arr(dst)
@@ -499,6 +505,8 @@ class Model:
             raise Invalid("target undefined")
         if d_info["glob"] and not s_info["glob"]:
             raise Invalid("storage mismatch")
+        if d_info["glob"] and not region and (not s.gexact or (fn in ("MULTIPLY", "POLY") and not d.gexact)):
+            raise Invalid("global storage is stale after a region operation")
         return s, d
 
     def _do_operate(self, dst, fn, s, d, cs, a, b):
@@ -528,6 +536,7 @@ class Model:
             raise Invalid("region set is the target")
         if self.sec == "PROPS" and regname == "OPERNUM":
             self.props_used_opernum = True
+            self.props_after_opernum.add(dst)
 
     def op_regscalar(self, kind, name, v, rid, setletter):
         self.check_target(name)
@@ -555,8 +564,8 @@ class Model:
                 a.taint.add("regop-int-ignored")
             if k == "ADD" and ARR[name]["dim"] == "Temperature":
                 a.taint.add("add-temperature-offset")
-        if cs:
-            a.exists = True
+        if cs and a.typ != "i":
+            a.exists = True      # (the library ignores region operations on int arrays: not created)
 
     def op_copyreg(self, src, dst, rid, setletter):
         regname = self.regname(setletter)
@@ -575,7 +584,7 @@ class Model:
         regname = regname or "OPERNUM"
         cs, r = self.region_cells(regname, rid)
         self._region_common(dst, regname, r)
-        s, d = self._check_operate(dst, fn, src, cs)
+        s, d = self._check_operate(dst, fn, src, cs, True)
         if ARR[dst]["glob"] and not ARR[src]["glob"]:
             raise Invalid("storage mismatch")
         self._do_operate(dst, fn, s, d, cs, a, b)
@@ -708,7 +717,8 @@ def render(case, all_active=False):
     t = ["RUNSPEC", "DIMENS", " %d %d %d /" % (nx, ny, nz), "OIL", "WATER", "GAS", "DISGAS", "VAPOIL"]
     if case["units"] != "METRIC" or case.get("explicit_metric"):
         t.append(case["units"])
-    t += ["TABDIMS", " %d %d /" % (INT_MAX, INT_MAX), "EQLDIMS", " %d /" % INT_MAX, "REGDIMS", " %d /" % INT_MAX]
+    t += ["TABDIMS", " %d %d /" % (INT_MAX, INT_MAX), "EQLDIMS", " %d /" % INT_MAX, "REGDIMS", " %d /" % INT_MAX,
+          "ENDSCALE", " /"]
     if case["nrmult"] > 0:
         t += ["GRIDOPTS", " 'YES' %d /" % case["nrmult"]]
     t += ["GRID", "DXV", " %d*%s /" % (nx, fnum(case["dxyz"][0])), "DYV", " %d*%s /" % (ny, fnum(case["dxyz"][1])),
@@ -732,7 +742,7 @@ def render(case, all_active=False):
 # generated only in a small share of the cases so that they cannot mask anything else
 def gated(kw, name, dst_glob=False):
     info = ARR[name]
-    if kw in ("EQUALREG", "ADDREG", "MULTIREG", "COPYREG") and info["typ"] == "i":
+    if kw in ("EQUALREG", "ADDREG", "MULTIREG") and info["typ"] == "i":
         return True            # region operations on integer arrays are ignored by the library
     if kw in ("ADD", "ADDREG") and info["dim"] == "Temperature":
         return True            # shift converted as an absolute temperature
@@ -876,6 +886,8 @@ class Gen:
         if sec == "EDIT":
             # PORV and MULTPV are not mixed in one EDIT section (their interplay is not asserted)
             names = ["PORV"] if self.edit_porv else [x for x in names if x != "PORV"]
+        if sec == "REGIONS" and m.props_used_opernum and not self.known_defects:
+            names = [x for x in names if x != "OPERNUM"]      # see "regions-before-props"
         focus = [self.pick(names) for _ in range(nfocus)]
 
         def target():
